@@ -142,6 +142,18 @@ def uses_types(shape):
     return bool(shape.get('type')) or any(tm.get('type') for tm in shape.get('tags', []))
 
 
+def uses_type_cache(shape):
+    """the cached type scorer (table lookup by a rolling sequence id) is used: types must be concrete to index the table"""
+    return bool(shape.get('type')) and shape.get('tw', 0) <= 3 and not shape.get('tags')
+
+
+def prepare_types(e, prog, cell, shape):
+    """character types as the oracle sees them: concrete (forked) when the table-lookup scorer needs them, else the symbolic terms"""
+    if uses_type_cache(shape):
+        return concretize_types(e, prog, cell)
+    return [cl.v for cl in hlib.fval(cell.v, 'char_types').e]
+
+
 def concretize_types(e, prog, cell):
     """replace the (symbolic) character types of a sentence by their value on this path (forks over the feasible types)"""
     ct = hlib.fval(cell.v, 'char_types')
